@@ -142,11 +142,15 @@ pub mod rt {
     // at least one argument; strings are chosen to contain separators, quotes and escapes
     const STRS: [&str; 8] = ["a|b", "a", "b|c", "\"q\"", "x\\y", "", "tab\t|", "é|ü"];
     const CHARS: [char; 8] = ['|', 'a', '"', '\\', '\'', '\n', 'é', '0'];
+    // integer pairs chosen so that (a, b) of different indices concatenate to the same digits
+    // ((1, 23) and (12, 3); (7, 15) and (71, 5)): a key builder that loses a separator collides on them
+    const U32A: [u32; 6] = [0, 1, 7, 12, 71, 5];
+    const U32B: [u32; 6] = [4, 23, 15, 3, 5, 9];
     pub fn arg_u32(j: usize) -> u32 {
-        j as u32
+        U32A[j % 6] + 1000 * (j / 6) as u32
     }
     pub fn arg_u32b(j: usize) -> u32 {
-        (j as u32 * 7) % 3
+        U32B[j % 6]
     }
     pub fn arg_u8(j: usize) -> u8 {
         j as u8
@@ -276,15 +280,17 @@ impl Workers {
 pub const NTHREADS: usize = 3;
 
 pub fn render_dump(d: &cachelito_core::verif::CacheDump, is_async: bool) -> String {
-    let mut es: Vec<String> = d
+    // canonical order: by (hex) key — exactly the order the Lean driver uses
+    let mut es: Vec<(String, String)> = d
         .entries
         .iter()
         .map(|(k, v, sz, age, hits)| {
             let age = if is_async { *age } else { age / 100 * 100 };
-            format!("{}={},{},{},{}", hex(k), hex(v), sz, age, hits)
+            (hex(k), format!("{}={},{},{},{}", hex(k), hex(v), sz, age, hits))
         })
         .collect();
-    es.sort();
+    es.sort_by(|a, b| a.0.cmp(&b.0));
+    let es: Vec<String> = es.into_iter().map(|p| p.1).collect();
     let q: Vec<String> = d.queue.iter().map(|k| hex(k)).collect();
     format!("{}#{}", es.join(";"), q.join(","))
 }
